@@ -196,6 +196,13 @@ def run(tier, seed):
                 by_sig[sig] = dict(check="mapping", signature=sig, what=f"C14 {sym}: script {s} on {d}", has_input=True,
                                    inputs={"text": t, "script": s, "doc": d},
                                    failing_input={"inputs": {"text": t, "script": s}, "observed": sym, "origin": "bounded enumeration"})
+    from bounded import livefresh
+
+    lf = livefresh.run("C14", tier, seed)
+    return E.merge(_own(n, n_ops, items, by_sig, t0), lf)
+
+
+def _own(n, n_ops, items, by_sig, t0):
     return dict(evaluations=n, distinct_nontrivial=n,
                 rule=f"all sequences of {n_ops} mapping operations from a {len(OPS)}-operation alphabet (document get/set/del, nested set "
                      "get/set/del through a lookup, scope mapping get/set/del; int/string/dict values) on 6 wrappers x 7 contents incl. "
@@ -206,6 +213,10 @@ def run(tier, seed):
 
 def replay(v):
     i = v["inputs"]
+    if "ops" in i:
+        from bounded import livefresh
+
+        return livefresh.replay("C14", v)
     sym = eval_script(i.get("doc", "r/r"), i["text"], [tuple(x) for x in i["script"]])
     print(i, "->", sym)
     if sym:
